@@ -929,6 +929,10 @@ def grid(tier):
             if q and dk["loc_distribution"] in ("gaussian", "gaussian_mixture"):
                 continue
             add("cvrp", dict(num_loc=n, **dk), [[2]])
+    # a capacity override on a size that also has a table entry (20 -> 30): the override wins
+    add("cvrp", dict(num_loc=20, capacity=50.0), [[2]])
+    add("cvrp", dict(num_loc=10, capacity=9, max_demand=9), [[2]])
+    add("cvrptw", dict(num_loc=20, capacity=50.0), [[2]])
     add("cvrp", dict(num_loc=5, depot_distribution="uniform"), [[2]])
     add("cvrp", dict(num_loc=5, min_demand=2, max_demand=6), [[2]])
     # --- cvrptw
